@@ -9,6 +9,20 @@ STATIC_NOTE = ('Static analysis only: /repo is parsed with ast on every run; pmu
                'polynomials), and the enumerated idiom tables in pmv/rules. ')
 
 CLAIMED = {
+    'C02': dict(
+        technique='abstract interpretation of the polynomial evaluators into exact rational normal forms '
+                  '(ast -> Fraction polynomials with exp/ln atoms), symbolic differentiation, ordering '
+                  'enumeration for segment selection',
+        text='Proves over the reals, for ALL coefficient vectors and temperatures at once, that the NASA-7, '
+             'NASA-9 and Shomate evaluators are linear in the coefficients and satisfy d(T*HoRT)/dT = CpoR '
+             'and dSoR/dT = CpoR/T slot by slot, that GoRT = HoRT - SoR with identical arguments, that '
+             'Nasa.get_a picks the right segment on all 7 orderings of T against T_low<T_mid<T_high, that '
+             'Nasa9._get_nasa returns the containing segment and refuses temperatures outside every segment '
+             '(1-4 segments, every position), and that array evaluation equals element-wise evaluation '
+             '(bounded unrolling, lengths 1-3 quick / 1-5 thorough).',
+        note=STATIC_NOTE + 'Identities are over the reals; IEEE rounding and non-numeric T are not decided. '
+             'The array/scalar clause is decided up to the stated array length.',
+        ref='DESIGN.md section 4 C02'),
     'C12': dict(
         technique='table analysis: constant folding of literal tables + abstract interpretation of the '
                   'lookup functions (ast, exact Fractions)',
